@@ -5,11 +5,13 @@ package main
 // field), with (OM 1) or without `,omitempty`; saved with CatalogSave and read back with CatalogRead through
 // gRPC and the in-process server.
 //
+//	also  val p …  the field of a PROFILE model (ProfileSave / ProfileRead), and
+//	      upd SLOT KIND OM DESC1 DESC2   save DESC1, save DESC2 over it, read: the last value must come back
 //	KIND  str bool u8 u16 u32 u64 uint i8 i16 i32 i64 int f32 f64 bytes strs i64s u32s map pstr pint pstruct time struct arr
 //	DESC  s:<hex|->   b:0|1   n:<int>   f:<IEEE bits>   y:nil|<hex|->   c:nil|<count>   p:nil|z|x
 //	      t:zero|<sec>:<nsec>:<zone offset s>   r:0|1
 //
-// Reply: same | nilempty (differs only by nil vs empty) | diff | err | bad-op.
+// Reply: same | nilempty (differs only by nil vs empty) | stale (upd: the first value came back) | diff | err | bad-op.
 
 import (
 	"context"
@@ -33,6 +35,11 @@ type c22Inner struct {
 
 func c22Ptr[T any](v T) *T { return &v }
 
+// named types: the conversions must go by reflect.Kind, not by exact type
+type c22Digest []byte
+type c22Label string
+type c22Count int32
+
 var c22IntKinds = map[string][2]int{"u8": {0, 8}, "u16": {0, 16}, "u32": {0, 32}, "u64": {0, 64}, "uint": {0, 64},
 	"i8": {1, 8}, "i16": {1, 16}, "i32": {1, 32}, "i64": {1, 64}, "int": {1, 64}}
 
@@ -49,6 +56,23 @@ func c22ValOf(kind, desc string) (any, bool) {
 		}
 		b, err := hex.DecodeString(s)
 		return b, err == nil
+	}
+	switch kind {
+	case "nbytes":
+		if v, ok := c22ValOf("bytes", desc); ok {
+			return c22Digest(v.([]byte)), true
+		}
+		return nil, false
+	case "nstr":
+		if v, ok := c22ValOf("str", desc); ok {
+			return c22Label(v.(string)), true
+		}
+		return nil, false
+	case "ni32":
+		if v, ok := c22ValOf("i32", desc); ok {
+			return c22Count(v.(int32)), true
+		}
+		return nil, false
 	}
 	switch {
 	case kind == "str" && tagc == "s":
@@ -235,7 +259,9 @@ func c22ValCmp(a, b any) int {
 	return 2
 }
 
-func c22Val(sdk *miscSDK, idx int, slot, kind, om, desc string) (out string) {
+// c22Val: slot v (catalog value), b (catalog map-body field), p (profile field). desc2 != "" saves a second
+// value over the first one before reading.
+func c22Val(sdk *miscSDK, idx int, slot, kind, om, desc, desc2 string) (out string) {
 	defer func() {
 		if r := recover(); r != nil {
 			fmt.Fprintf(os.Stderr, "c22 val %s %s %s: panic %v\n", slot, kind, desc, r)
@@ -243,51 +269,97 @@ func c22Val(sdk *miscSDK, idx int, slot, kind, om, desc string) (out string) {
 		}
 	}()
 	val, ok := c22ValOf(kind, desc)
-	if !ok || (slot != "v" && slot != "b") || (om != "0" && om != "1") {
+	final := val
+	var val2 any
+	if desc2 != "" {
+		var ok2 bool
+		val2, ok2 = c22ValOf(kind, desc2)
+		ok = ok && ok2
+		final = val2
+	}
+	if !ok || (slot != "v" && slot != "b" && slot != "p") || (om != "0" && om != "1") {
 		return "bad-op"
 	}
-	tag := "value"
-	if slot == "b" {
-		tag = "Fld"
-	}
+	tag := map[string]string{"v": "value", "b": "Fld", "p": ""}[slot]
 	if om == "1" {
-		tag += ",omitempty"
+		if tag != "" {
+			tag += ","
+		}
+		tag += "omitempty"
 	}
-	fields := []reflect.StructField{c22Field("K", c22StringType, "key"), c22Field("X", reflect.TypeOf(val), tag)}
-	if slot == "b" {
+	var fields []reflect.StructField
+	xi := 1
+	switch slot {
+	case "p":
+		xf := reflect.StructField{Name: "X", Type: reflect.TypeOf(val)}
+		if tag != "" {
+			xf = c22Field("X", reflect.TypeOf(val), tag)
+		}
+		fields = []reflect.StructField{xf, {Name: "Zz", Type: c22StringType}}
+		xi = 0
+	case "b":
 		// a second body field keeps the model a map-body catalog even when X is omitted
-		fields = append(fields, c22Field("Zz", c22StringType, "Zz"))
+		fields = []reflect.StructField{c22Field("K", c22StringType, "key"), c22Field("X", reflect.TypeOf(val), tag), c22Field("Zz", c22StringType, "Zz")}
+	default:
+		fields = []reflect.StructField{c22Field("K", c22StringType, "key"), c22Field("X", reflect.TypeOf(val), tag)}
 	}
 	st := reflect.StructOf(fields)
-	m := reflect.New(st)
-	m.Elem().Field(0).SetString("k1")
-	m.Elem().Field(1).Set(reflect.ValueOf(val))
-	if slot == "b" {
-		m.Elem().Field(2).SetString("zv")
+	build := func(v any) reflect.Value {
+		m := reflect.New(st)
+		if slot != "p" {
+			m.Elem().Field(0).SetString("k1")
+		}
+		m.Elem().Field(xi).Set(reflect.ValueOf(v))
+		if slot != "v" {
+			m.Elem().Field(xi + 1).SetString("zv")
+		}
+		return m
 	}
 	ctx, cancel := context.WithTimeout(context.Background(), 10*time.Second)
 	defer cancel()
-	swamp := sdkname.New().Sanctuary("c22").Realm("val").Swamp("s" + strconv.Itoa(idx))
-	if _, err := sdk.H.CatalogSave(ctx, swamp, m.Interface()); err != nil {
+	swamp := sdkname.New().Sanctuary("c22").Realm("val" + slot).Swamp("s" + strconv.Itoa(idx))
+	save := func(v any) error {
+		if slot == "p" {
+			return sdk.H.ProfileSave(ctx, swamp, build(v).Interface())
+		}
+		_, err := sdk.H.CatalogSave(ctx, swamp, build(v).Interface())
+		return err
+	}
+	defer func() { _ = sdk.H.Destroy(context.Background(), swamp) }()
+	if err := save(val); err != nil {
 		fmt.Fprintf(os.Stderr, "c22 val %s %s %s: save: %v\n", slot, kind, desc, err)
 		return "err"
 	}
-	defer func() { _ = sdk.H.Destroy(context.Background(), swamp) }()
+	if desc2 != "" {
+		if err := save(val2); err != nil {
+			fmt.Fprintf(os.Stderr, "c22 val %s %s %s: second save: %v\n", slot, kind, desc2, err)
+			return "err"
+		}
+	}
 	back := reflect.New(st)
-	if err := sdk.H.CatalogRead(ctx, swamp, "k1", back.Interface()); err != nil {
+	var err error
+	if slot == "p" {
+		err = sdk.H.ProfileRead(ctx, swamp, back.Interface())
+	} else {
+		err = sdk.H.CatalogRead(ctx, swamp, "k1", back.Interface())
+	}
+	if err != nil {
 		fmt.Fprintf(os.Stderr, "c22 val %s %s %s: read: %v\n", slot, kind, desc, err)
 		return "err"
 	}
-	if slot == "b" && back.Elem().Field(2).String() != "zv" {
+	if slot != "v" && back.Elem().Field(xi+1).String() != "zv" {
 		return "diff"
 	}
-	switch c22ValCmp(val, back.Elem().Field(1).Interface()) {
+	switch c22ValCmp(final, back.Elem().Field(xi).Interface()) {
 	case 0:
 		return "same"
 	case 1:
 		return "nilempty"
 	}
-	fmt.Fprintf(os.Stderr, "c22 val %s %s %s om=%s: saved %#v read %#v\n", slot, kind, desc, om, val, back.Elem().Field(1).Interface())
+	if desc2 != "" && c22ValCmp(val, back.Elem().Field(xi).Interface()) == 0 {
+		return "stale" // the FIRST value came back: the second save did not replace it
+	}
+	fmt.Fprintf(os.Stderr, "c22 val %s %s %s %s om=%s: saved %#v read %#v\n", slot, kind, desc, desc2, om, final, back.Elem().Field(xi).Interface())
 	return "diff"
 }
 
@@ -312,10 +384,13 @@ var c22ValCorpus = map[string][]string{
 	"time":   {"t:zero", "t:1928117106:0:0", "t:1928117106:789000000:0", "t:1928117106:0:3600", "t:-315619200:0:0", "t:0:0:0", "t:0:1:0"},
 	"struct": {"r:0", "r:1"},
 	"arr":    {"r:0", "r:1"},
+	"nbytes": {"y:nil", "y:-", "y:010203"},
+	"nstr":   {"s:-", "s:6162"},
+	"ni32":   {"n:0", "n:-7", "n:2147483647"},
 }
 
 var c22ValKinds = []string{"str", "bool", "u8", "u16", "u32", "u64", "uint", "i8", "i16", "i32", "i64", "int", "f32", "f64", "bytes",
-	"strs", "i64s", "u32s", "map", "pstr", "pint", "pstruct", "time", "struct", "arr"}
+	"strs", "i64s", "u32s", "map", "pstr", "pint", "pstruct", "time", "struct", "arr", "nbytes", "nstr", "ni32"}
 
 func c22RandDesc(rng *rand.Rand, kind string) string {
 	if w, ok := c22IntKinds[kind]; ok {
@@ -347,6 +422,8 @@ func c22RandDesc(rng *rand.Rand, kind string) string {
 		return "f:" + strconv.FormatUint(uint64(rng.Uint32()), 10)
 	case "f64":
 		return "f:" + strconv.FormatUint(rng.Uint64(), 10)
+	case "nbytes", "nstr", "ni32":
+		return c22RandDesc(rng, map[string]string{"nbytes": "bytes", "nstr": "str", "ni32": "i32"}[kind])
 	case "bytes":
 		b := make([]byte, 1+rng.Intn(20))
 		rng.Read(b)
@@ -361,11 +438,26 @@ func c22RandDesc(rng *rand.Rand, kind string) string {
 }
 
 func c22GenVals(rng *rand.Rand, tier string, emit func(string)) {
-	for _, slot := range []string{"v", "b"} {
+	for _, slot := range []string{"v", "b", "p"} {
 		for _, k := range c22ValKinds {
 			for _, d := range c22ValCorpus[k] {
 				for _, om := range []string{"0", "1"} {
 					emit(fmt.Sprintf("val %s %s %s %s", slot, k, om, d))
+				}
+			}
+		}
+	}
+	// overwrite: a non-zero value, then every corpus value of the kind (zero values included), then read
+	for _, slot := range []string{"v", "b", "p"} {
+		for _, k := range c22ValKinds {
+			c := c22ValCorpus[k]
+			first := c[len(c)-1]
+			for _, d := range c {
+				for _, om := range []string{"0", "1"} {
+					if slot == "p" && om == "1" {
+						continue // a profile field that is omitted keeps its stored value by design (use `deletable`)
+					}
+					emit(fmt.Sprintf("upd %s %s %s %s %s", slot, k, om, first, d))
 				}
 			}
 		}
@@ -376,6 +468,6 @@ func c22GenVals(rng *rand.Rand, tier string, emit func(string)) {
 	}
 	for i := 0; i < n; i++ {
 		k := c22ValKinds[rng.Intn(len(c22ValKinds))]
-		emit(fmt.Sprintf("val %s %s %d %s", []string{"v", "b"}[rng.Intn(2)], k, rng.Intn(2), c22RandDesc(rng, k)))
+		emit(fmt.Sprintf("val %s %s %d %s", []string{"v", "b", "p"}[rng.Intn(3)], k, rng.Intn(2), c22RandDesc(rng, k)))
 	}
 }
